@@ -711,13 +711,13 @@ func (ps *progressGroup) prepare(r *regex, pIdx int, e *query.DataConditionEleme
 		return p, err
 	}
 	prefix, complete := p.regex.LiteralPrefix()
-	root.prefix = []byte(prefix)
+	p.prefix = []byte(prefix)
 	if complete {
 		p.acceptedLength = regexanalysis.AcceptedLengths{
 			MinLength: uint(len(prefix)),
 			MaxLength: uint(len(prefix)),
 		}
-		root.suffix = root.prefix
+		p.suffix = p.prefix
 	} else {
 		if p.acceptedLength, err = regexanalysis.AcceptedLength(expr); err != nil {
 			return nil, err
